@@ -320,10 +320,18 @@ def rand_chain(r):
                 items.append(x)
             items.append(("t", "]"))
             spec["defs"][d] = items
-        for b in list(spec["blocks"]):
+        nested_here = set()
+        names = sorted(spec["blocks"])
+        for bi, b in enumerate(names):
             items = [("t", "%s@T%d{" % (b, i))]
             if any(b in chain[j]["blocks"] for j in range(i + 1, n + 1)) and r.random() < 0.5:
                 items.append(("call", "parent", b))
+            # a named block written inside another named block of the same template (each name once per template)
+            inner = [c for c in names[bi + 1:] if c not in nested_here]
+            if inner and r.random() < 0.4:
+                c = r.choice(inner)
+                nested_here.add(c)
+                items.append(("block", c))
             items.append(("t", "}"))
             spec["blocks"][b] = {"items": items}
         body = [("t", "BODY%d(" % i)]
@@ -337,7 +345,7 @@ def rand_chain(r):
                 # calling a block by name re-renders it (allowed), calling defs that only print is safe
                 body.append(x)
             elif k < 0.75:
-                cand = [b for b in spec["blocks"] if b not in placed]
+                cand = [b for b in spec["blocks"] if b not in placed and b not in nested_here]
                 if cand:
                     b = r.choice(cand)
                     placed.append(b)
@@ -347,7 +355,7 @@ def rand_chain(r):
             else:
                 body.append(("t", "t%d" % r.randrange(100)))
         for b in spec["blocks"]:
-            if b not in placed:
+            if b not in placed and b not in nested_here:
                 body.append(("block", b))
         if i > 0 and r.random() < 0.9:
             tgt = chain[i - 1]
